@@ -16,3 +16,12 @@ import DDProofs.MddReach
 import DDProofs.MddGcReach
 import DDProofs.MddCount
 import DDProofs.MddFuel
+
+namespace DD
+/-! names used in the design document -/
+theorem mddFindOrAdd_spec := @mFindOrAddCore_spec
+theorem mddIte_spec := @mIte_spec
+theorem mddApply_spec := @mApply_spec
+theorem mdd_canonical := @mcanonical
+theorem mddGc_exactly_reachable := @gc_exactly_reachable
+end DD
